@@ -34,7 +34,12 @@ import numpy as np
 
 from props import c02
 
-RULE = ('per format (v1, v2, v3 HDF5 files through katdal.open; v4 telstate + npy chunk store through VisibilityDataV4) '
+RULE = ('per format (v1, v2, v3 HDF5 files through katdal.open; v4 telstate + npy chunk store through VisibilityDataV4 or '
+        'katdal.open of an .rdb, 70 % opened WITH preselect=dict(dumps=slice, channels=slice): 4-12 stored dumps x 3-9 '
+        'stored channels (odd and even), keys channels / dumps / both / none, bounds normalised / None / negative, the '
+        'four parity strata (stored channel count) x (first + last of the channel range) with dropped first dumps and a '
+        'non-zero time_offset in every run; v2 files of version 2.0 / 2.1; v3 frequency-axis strata L / fake UHF / real '
+        'UHF / faulty CBF bandwidth / no band / unknown band, then both centre overrides; keepdims False / True) '
         'generated observation models (3-12 dumps, 2-8 channels, 2-3 antennas = 10-21 products, scan / compscan / '
         'target structure, v1 scan groups, duplicate final dump, keepdims, lower / upper sideband, centroid / start '
         'timestamps, time_offset, v4 chunking and shuffled baseline ordering; v1 / v2 / v3: dump times on a regular or '
@@ -44,9 +49,12 @@ RULE = ('per format (v1, v2, v3 HDF5 files through katdal.open; v4 telstate + np
         'x histories of 8-16 operations drawn from {select(**kw) with all criterion kinds / argument forms / resets of '
         'the C02 generator incl. flags= and weights=, acquisition of vis / flags / weights / raw_flags / timestamps '
         'indexers (kept for later), x[ix2] on ANY previously acquired indexer with ints (incl. negative), slices, '
-        'boolean masks and integer lists per axis (forms the indexer class supports), observation of shape / dumps / '
+        'boolean masks and integer lists per axis (forms the indexer class supports; 7 % scalar on every axis), elements '
+        'against the labelled STORED arrays, true dimensionality of the answer (v2 / v3 / v4), observation of shape / dumps / '
         'channels / corr_products / timestamps / freqs / sensor.timestamps / every numeric sensor, d.az, d.el, a '
-        'categorical sensor and d.mjd against the stored histories evaluated at the timestamps of the selected dumps / '
+        'categorical sensor and d.mjd against the stored histories evaluated at the timestamps of the selected dumps; '
+        'freqs / channel_freqs / sideband against the documented axis of the stored attributes (file attributes v1-v3, '
+        'telstate v4), timestamps of v4 against the documented times of the stored dumps / '
         'scan_index and target against the unselected arrays}; a case is one '
         'operation in its history; non-trivial when it is a read or observation under a selection that is neither '
         'everything nor empty, or a read through an indexer acquired before a later select(); distinct by (data set, '
@@ -59,7 +67,8 @@ ASSUMPTIONS = ['stored samples are labels (small integers exactly representable 
                'with the same numpy / katpoint functions applied to the exact expected values; the activity arrays of '
                'antennas with the same stored history are compared with each other from dump 1 on (the readers fold a '
                'first dump before a slew into the slew on the reference antenna only)',
-               'v4 timestamps are what TelstateDataSource serves (always regular; C17 owns their computation)',
+               'v4 timestamps and frequencies are the documented ones of the telstate attributes (sync_time, first_timestamp, '
+               'int_time, center_freq, bandwidth, n_chans; lite RDB, recent capture: no CBF-dump fix; always regular)',
                'elements are compared in the canonical 3-axis form; the dimensionality of the answer itself (scalar-indexed '
                'axes dropped; all three kept under keepdims=True of v2 / v3) is compared for v2 / v3 / v4, not for H5DataV1 '
                '(its concatenation keeps the time axis and treats a scalar first index differently from the others)',
